@@ -116,12 +116,29 @@ def main(tier, replay):
         "gradient; <u,Hu> >= -tol and midpoint convexity of the value if is_convex(); Quadratic: exact expansion value(l+e)=value(l)+<g,e>+<e,He>/2 "
         "(random e and per voxel) and grad(l+e)=grad(l)+He; RDP/log-cosh/PLS: central differences of value vs gradient (PLS: every voxel incl. borders, uniform and varying kappa) and of gradient vs Hessian row with "
         "tolerances derived from bounds on the 3rd/4th derivatives of the potentials; accumulate adds; locality (perturbing a voxel outside the reach "
-        "leaves the gradient bitwise unchanged) and point-reflection equivariance (borders treated alike at both ends).",
+        "leaves the gradient bitwise unchanged) and point-reflection equivariance (borders treated alike at both ends). "
+        "OBJECT LIFE CYCLE (ops onew/oparse/obox/okappa/oanat/osetw/oset/osetup/ocall/owts; the Lean driver keeps the members of one prior object, "
+        "Model.lean NbPrior, and answers every call and every get_weights() from them): (1) first call: for each of value, grad, hrow, htimes, approx, surr a "
+        "fresh object whose FIRST call is that function (each has its own lazy compute_weights block; incl. penalisation factor 0: nothing computed), "
+        "then a second function; oracle: weights and results bitwise equal to those of the value-first object. (2) second image: one object used with one "
+        "image, set up again for an image of another size and/or voxel size (default and user weights, new kappa / anatomical image), all functions; model: "
+        "set_up keeps the weights; oracle: equal to a fresh object (default weights + other voxel size = known-finding class "
+        "default-weights-stale-after-set_up-with-other-voxel-size), then all clauses of the property on the re-used object. (3) parse(): parameter text with "
+        "`weights :=` 3x3x3, 5x5x5, 1x3x3, even sizes 2x3x3 3x2x3 3x3x4 2x2x2 1x1x2 (model parsedWeights: re-indexing -n/2..; even = asymmetric class), no weights "
+        "key with `only 2D` (1x3x3 defaults, also for RDP/log-cosh), ragged array (parse error), `kappa filename` / PLS `anatomical_filename` written by the "
+        "harness as Interfile; oracle: equal to the object configured by constructor + setters, then all clauses on the parsed object. (4) setters on a used "
+        "object: set_penalisation_factor (incl. to and from 0), set_gamma/epsilon, set_scalar, set_weights (other / empty = defaults again), set_kappa_sptr, "
+        "new image values; PLS: set_alpha, set_eta / set_only_2D with and without a new set_up (model: the anatomical norm keeps the values of the last set_up); "
+        "oracle: equal to a fresh object with the same members, value linear in the factor on ONE object, then all clauses on the object.",
         extra=dict(worst_relative_to_bound=float(cmp.worst)))
     chk.assumptions += ["regular (box-shaped) images and weights", "float rounding is bounded, not modelled",
                         "32-bit index overflow not modelled", "images positive (RDP: x+y+epsilon > 0)",
                         "weights, kappa and penalisation factor non-negative (positive semi-definiteness)",
                         "asymmetric user weights w(-d) != w(d): known finding neighbourhood-priors:asymmetric-user-weights (theorems needing symmetric weights are named _partial)",
+                        "default weights kept from an image of another voxel size: known finding neighbourhood-priors:default-weights-stale-after-set_up-with-other-voxel-size "
+                        "(value, gradient and Hessian stay mutually consistent: C09_object_history_keeps_symmetric_weights; Lean witness C09_default_weights_stale_after_set_up_fails)",
+                        "object ops: the default weights the model computes (binary64) replace the float weights of the implementation in the following arithmetic "
+                        "(covered by the tolerance); warnings of post_processing (even sizes) and _already_set_up errors are not observed",
                         "PLS: Lean theorem for the partial derivative with respect to every single voxel (alpha != 0, anatomical data as prepared by set_up); directional derivatives along arbitrary images and convexity of PLS: oracle only"]
     if audit:
         vlib.proof_coverage(chk, audit, "cd lean && lake build StirVerif stirdriver && lake env lean ../build/out/Audit_C09.lean")
